@@ -252,6 +252,8 @@ class IndependentWrites:
         if isinstance(it, SymEnumerate):
             enum_start = it.start
             it = it.it
+        if type(it).__name__ == 'SymSeq':
+            it = SeqRange(it)
         if not isinstance(it, SRange):
             raise Unsupported('L3 loop over non-range iterable', s)
         n = it.length()
